@@ -20,6 +20,15 @@ REQUIRED = [
     "fact_get_reads_timestamp_first", "fact_check_order", "fact_add_deletes_previous", "fact_expiry_comparisons",
     "fact_update_service_shape", "fact_restart_after_wipe", "fact_service_writers_locked", "fact_loops_visit_everything",
     "fact_comparisons_exact", "fact_exists_key", "fact_background_jobs", "fact_wiring", "fact_store_guards_credential_id",
+    # deepening round 2026-09-28: node layer (Props/C16Node.lean)
+    "fact_status_table", "fact_verify_returns", "fact_routing_order", "fact_cycle_detected", "fact_load_definitions",
+    "fact_api_timestamp_default", "fact_update_all_shape", "fact_validated_only_after_verification",
+    "configure_sound", "configure_server_subset", "configure_rejects_unknown_server_id", "configure_key_id", "route_after_configure",
+    "node_register_refines", "node_register_frame", "node_refusal_changes_nothing", "node_unserved_request",
+    "node_listed_sound", "node_lists_wellformed", "unserved_lists_stay_empty", "configured_node_lists_addressed",
+    "api_register_201_iff", "api_register_created_iff_acceptable", "refusal_status_codes", "apiGet_default", "rowsAfterInt_ofNat",
+    "get_from_nonpositive_returns_all", "node_get_served", "updateAll_no_early_exit",
+    "client_flags_iff_verified", "retraction_unverifiable_once_stored", "forged_retraction_never_flagged",
     "credential_without_id_refused", "fact_set_timestamp_unconditional", "overlapping_polls_heal", "overlapping_polls_can_diverge", "overlapping_poll_across_wipe_diverges", "fact_start_keeps_service_records", "restart_is_identity",
 ]
 
@@ -91,6 +100,39 @@ def acceptable(vp, d, now, prev_rows):
     return why
 
 
+def client_cannot_verify(vp, d):
+    """why the CLIENT's own verifyRegistration cannot have accepted this presentation as a row of its replica (the part
+    that does not depend on the clock): evaluated on the description of the presentation, independent of the model"""
+    if not vp:
+        return ["a presentation no accepted registration produced"]
+    why = []
+    if not vp.get("verifyC"):
+        why.append("the client's verifier rejects it")
+    if not vp.get("jwt") or vp.get("id") is None or vp.get("exp") is None:
+        why.append("not a JWT presentation with id and expiration")
+    if d["id"] not in vp.get("aud", []):
+        why.append("not addressed to the service")
+    sg = vp.get("signer")
+    if not sg or (d["didMethods"] and sg[1] not in d["didMethods"]):
+        why.append("signer missing or of a DID method that is not allowed")
+    if vp.get("retraction"):
+        # sqlStore.add has replaced every other entry of the signer by the retraction itself before the client verifies:
+        # the only entry of the signer a retraction can name in the replica is itself
+        if vp.get("creds"):
+            why.append("retraction with credentials")
+        if not vp.get("retractJti") or vp.get("retractJti") != vp.get("id"):
+            why.append("retraction of an entry the replica does not hold")
+    else:
+        exp = vp.get("exp")
+        if exp is not None and any(c is not None and c < exp for c in vp.get("creds", [])):
+            why.append("outlives a credential")
+        if not all(vp.get("credIds", [])):
+            why.append("holds a credential without id")
+        if vp.get("pex", -1) != len(vp.get("creds", [])):
+            why.append("credentials do not all-and-only fulfil the definition")
+    return why
+
+
 def wire_leg(ctx):
     """real api.go wrapper + real http.go client around a scripted server: the transport must be faithful"""
     binary = ctx.go_test_binary(WIRE_PKG, WIRE_HARNESS, "c16wire")
@@ -142,7 +184,7 @@ def wire_leg(ctx):
 
 def run(ctx):
     ctx.facts()
-    thms = ctx.build_and_audit(["NutsProofs.Props.C16"])
+    thms = ctx.build_and_audit(["NutsProofs.Props.C16", "NutsProofs.Props.C16Node"])
     for r in REQUIRED:
         if not any(t.endswith("Props." + r) for t in thms):
             ctx.oblige("thm-present:" + r, False, "theorem missing or its module does not build")
@@ -204,6 +246,8 @@ def run(ctx):
     n_restart = 0
     prev_side, noise_ids = None, set()
     n_side = 0
+    handed_out = {}        # (subject, id) -> description of a presentation a defective server handed out (pollinject)
+    n_forged = Counter()
     inflight, interleaved = 0, False   # responses of overlapping polls in flight; a poll STARTED while another response was in flight
 
     known_sig = {}         # signature -> True if it matches an open known finding
@@ -228,6 +272,7 @@ def run(ctx):
             epoch_max, accepted, sub_hist, resets, wipes = 0, {}, {}, 0, 0
             prev_side, noise_ids = None, set()
             inflight, interleaved = 0, False
+            handed_out = {}
             continue
         if kind == "get":
             classes["get"] += 1
@@ -345,14 +390,28 @@ def run(ctx):
             if (r["subject"], r["id"]) not in accepted:
                 report("C16:listed-unsound:unknown-row", "server lists a row that no accepted registration produced", i)
         # client search: only validated, unexpired rows the client verified itself
+        if kind == "pollinject" and op.get("vp", {}).get("signer") and op["vp"].get("id") is not None:
+            handed_out[(op["vp"]["signer"][0], op["vp"]["id"])] = op["vp"]   # what a defective server handed out
+            n_forged[op.get("class", "?")] += 1
         for (sub, pid) in st["Q"]:
             r = ckeys.get((sub, pid))
-            vpd = accepted.get((sub, pid), (None, {}))[1]
+            vpd = accepted.get((sub, pid), (None, handed_out.get((sub, pid), {})))[1]
             if r is None or not r["validated"] or r["exp"] <= now - t0 - 2 or not vpd.get("verifyC"):
                 report("C16:search-unsound", f"client search returned {sub}:{pid} which is not a validated unexpired entry it verified", i)
+            else:
+                why = client_cannot_verify(vpd, d)
+                if why:
+                    report("C16:search-unsound:" + re.sub(r"[^a-z]+", "-", why[0].lower()),
+                           f"client search returned {sub}:{pid} which the client's own verification cannot have accepted: " + "; ".join(why), i)
         for r in C["rows"]:
-            if r["validated"] and not accepted.get((r["subject"], r["id"]), (None, {}))[1].get("verifyC"):
+            vpd = accepted.get((r["subject"], r["id"]), (None, handed_out.get((r["subject"], r["id"]), {})))[1]
+            if r["validated"] and not vpd.get("verifyC"):
                 report("C16:validated-without-verification", "client row is validated although the client's verifier rejects it", i)
+            elif r["validated"]:
+                why = client_cannot_verify(vpd, d)
+                if why:
+                    report("C16:validated-without-verification:" + re.sub(r"[^a-z]+", "-", why[0].lower()),
+                           f"client row {r['subject']}:{r['id']} is flagged validated although the client's own verification cannot have accepted it: " + "; ".join(why), i)
         # a poll that meets another seed than the replica's leaves the replica empty at timestamp 0 (starting over)
         if kind in ("poll", "pollall") and prev and prev["C"]["seed"] not in ("-", prev["S"]["seed"]):
             n_restart += 1
@@ -425,5 +484,6 @@ def run(ctx):
     if oracle_known:
         ctx.notes.append("oracle hits explained by open known findings: " + "; ".join(f"{k} x{v}" for k, v in oracle_known.items()))
     ctx.cov["input_distribution"] = {"op_classes": dict(classes.most_common()), "results": dict(results.most_common()),
-                                     "histories": sum(1 for o in ops if o.get("op") == "init"), "convergence_checks": n_checked_conv, "seed_change_restarts": n_restart, "side_observations": n_side}
+                                     "histories": sum(1 for o in ops if o.get("op") == "init"), "convergence_checks": n_checked_conv, "seed_change_restarts": n_restart, "side_observations": n_side,
+                                     "forged_by_defective_server": dict(n_forged)}
     ctx.cov["samples"] = [ops_txt[1][:300] if len(ops_txt) > 1 else "", impl[-1][:300] if impl else ""]
